@@ -12,7 +12,8 @@ def applyRecord (cfg : Option Config) (m : FlowMsg) (r : FlowRecord) : Res FlowM
   match r.data with
   | .raw vals hd =>
     let m := { m with bytes := vals.getD 1 0 }
-    if vals.getD 0 0 = 1 then parsePacket (cfg.getD {}) m hd else .ok m
+    -- only the announced length was captured: the XDR padding the decoder keeps is not dissected
+    if vals.getD 0 0 = 1 then parsePacket (cfg.getD {}) m (hd.take (vals.getD 3 0)) else .ok m
   | .fixed kind vs =>
     if kind = 3 then
       .ok { m with srcAddr := vBytes vs 2, dstAddr := vBytes vs 3, bytes := vNat vs 0, proto := vNat vs 1, srcPort := vNat vs 4, dstPort := vNat vs 5, ipTos := vNat vs 7, etype := 0x800 }
